@@ -71,7 +71,8 @@ def tool_half(ctx, binp):
     os.makedirs(wd, exist_ok=True)
     base = {"bias": 7, "cw": 1, "tw": 1, "cng": [{"ng": [97], "w": [1, -1]}], "tng": [], "dict": [], "tags": []}
     events, meta = [], {}
-    cases = [{"dict": []}] + cases        # a model whose dictionary is empty must survive dump -> replace as well
+    cases = [{"dict": []}, {"dict": [{"ng": [], "w": [7], "c": [99]}, {"ng": [97], "w": [16777217, -33554433], "c": []}]}] + cases
+    # (an empty dictionary and a dictionary holding the zero-length word must survive dump -> replace as well)
     for i, c in enumerate(cases):
         m = dict(base, dict=c["dict"])
         mj, mz, csvp, outz = (os.path.join(wd, f"m{i}.{x}") for x in ("json", "zst", "csv", "out.zst"))
@@ -109,6 +110,31 @@ def tool_half(ctx, binp):
         if rc == 0 or os.path.exists(outz):
             ctx.violation(f"C19:tool:badcount:{k}", f"CSV record with a wrong weight count was accepted (exit {rc}, output model written: {os.path.exists(outz)}): {txt!r}",
                           {"kind": "cli19-bad", "csv": txt}, cls="C19:tool:badcount")
+    # replacing a non-empty dictionary by an EMPTY one through the tool (header-only CSV and zero-byte file): the result must be
+    # the model with an empty dictionary
+    mj, mz = os.path.join(wd, "full.json"), os.path.join(wd, "full.zst")
+    json.dump(dict(base, dict=[{"ng": [97], "w": [5, -5], "c": []}, {"ng": [12354, 97], "w": [1, 2, 3], "c": [120]}]), open(mj, "w"))
+    vlib.run_harness(binp, ["mkmodel", mj, mz], name="mkmodel")
+    ej, ez = os.path.join(wd, "emptyd.json"), os.path.join(wd, "emptyd.zst")
+    json.dump(dict(base, dict=[]), open(ej, "w"))
+    vlib.run_harness(binp, ["mkmodel", ej, ez], name="mkmodel")
+    vlib.run_harness(binp, ["unzstd", ez, ez + ".raw"], name="unzstd")
+    want = list(open(ez + ".raw", "rb").read())
+    for k, txt in enumerate(["word,weights,comment\n", ""]):
+        csvp, outz = os.path.join(wd, f"empty{k}.csv"), os.path.join(wd, f"empty{k}.out.zst")
+        open(csvp, "w").write(txt)
+        for pth in (outz, outz + ".raw"):
+            if os.path.exists(pth):
+                os.remove(pth)
+        rc = run_tool(cli, ["--model-in", mz, "--replace-dict", csvp, "--model-out", outz])
+        got = [-1]
+        if rc == 0 and os.path.exists(outz):
+            vlib.run_harness(binp, ["unzstd", outz, outz + ".raw"], name="unzstd")
+            got = list(open(outz + ".raw", "rb").read())
+        eid = len(events)
+        events.append({"id": eid, "ev": "pair", "ok": rc == 0, "a": want, "b": got})
+        meta[eid] = ({"dict": [{"ng": [101, 109, 112, 116, 121], "w": [], "c": []}]}, rc, rc, csvp)
+        ctx.evaluations += 1
     rej, _ = vlib.validate_trace(ctx, "C19-dump-replace", "Trace_Pair", events)
     for rid in rej:
         c, rc1, rc2, csvp = meta[rid]
